@@ -838,6 +838,15 @@ func hasRegexType(p *Project) bool {
 	return false
 }
 
+// padTo16 appends trailing spaces so that texts kept in a reusable buffer often
+// have equal lengths (what an identity-keyed cache would confuse).
+func padTo16(t string) string {
+	for len(t)%16 != 0 {
+		t += " "
+	}
+	return t
+}
+
 func pickEnum(r *rng) string {
 	if r.pct(50) {
 		return genEnumText(r)
@@ -996,6 +1005,15 @@ func genWorldC09(seed uint64, proj *Project) *World {
 	r := &rng{s: seed}
 	w := &World{Prop: "C09", Seed: seed, Cfg: swarmCfg(r, "C09")}
 	w.Objects = []Project{*proj, *proj}
+	useBuf := proj.Kind != "guess" && r.pct(30)
+	if useBuf {
+		// the caller reads every text into one reusable buffer; each object is
+		// finished before the next text is read in
+		for i := range w.Objects {
+			w.Objects[i].Buf = 3
+			w.Objects[i].Text = padTo16(w.Objects[i].Text)
+		}
+	}
 	var ops []Op
 	// "On every repetition": in half of the runs unrelated work (other inputs, some
 	// of them torn) happens before the first and between the two instances. These
@@ -1014,6 +1032,10 @@ func genWorldC09(seed uint64, proj *Project) *World {
 				nr = &rng{s: hashSeed(noiseBase, 4243, fnv(0, proj.Kind), uint64(r.n(24))), focus: proj.Kind}
 			}
 			p := genProject(nr, 35)
+			if useBuf && p.Kind != "guess" {
+				p.Buf = 3
+				p.Text = padTo16(p.Text)
+			}
 			o := len(w.Objects)
 			w.Objects = append(w.Objects, p)
 			ops = append(ops, Op{Obj: o, Kind: "build"})
@@ -1059,6 +1081,7 @@ func genWorldC10(seed uint64, faults bool) *World {
 	}
 	nobj := 2 + r.n(5)
 	shareTypes := r.pct(35)
+	useBuf := r.pct(30) // the caller keeps some texts in reusable []byte buffers
 	torn := 0
 	if faults {
 		torn = []int{0, 20, 50}[r.n(3)]
@@ -1071,6 +1094,10 @@ func genWorldC10(seed uint64, faults bool) *World {
 			p.ShareWith = 0
 		} else {
 			p = genProject(r, torn)
+		}
+		if useBuf && p.Kind != "guess" && p.ShareWith == 0 && r.pct(50) {
+			p.Buf = 1 + r.n(2)
+			p.Text = padTo16(p.Text)
 		}
 		if o > 0 && shareTypes && r.pct(30) {
 			// another schema of the same "API project": it registers the very type and
@@ -1124,6 +1151,15 @@ func genWorldC10(seed uint64, faults bool) *World {
 			break
 		}
 		i := live[r.n(len(live))]
+		if b := w.Objects[i].Buf; b > 0 && queues[i][0].Kind == "build" {
+			// taking a buffer over ends its previous owner's life: let that one finish first
+			for j := range queues {
+				if j != i && w.Objects[j].Buf == b && len(queues[j]) > 0 && queues[j][0].Kind != "build" {
+					ops = append(ops, queues[j]...)
+					queues[j] = nil
+				}
+			}
+		}
 		ops = append(ops, queues[i][0])
 		queues[i] = queues[i][1:]
 		if faults && r.pct(4) {
